@@ -8,6 +8,9 @@ inside their critical sections (max simultaneous holders), a second counter insi
 functions, refusal of RLock.release by a non-holder / BoundedSemaphore.release at full value (and: a refused
 release leaves the stored entry unchanged and admits no extra holder afterwards, `refusal_sequences`),
 "an attempt made while the resource is certainly free succeeds", and termination of every contender.
+Separately started interpreters (`fresh_process_holders`): process A (own PYTHONHASHSEED) opens the directory, builds its recipe objects
+from the keys and holds; process B (another interpreter, another PYTHONHASHSEED, nothing inherited or pickled) must find each of them
+taken (Lock.locked() true, an attempt that ends at the recipe's first sleep gets exactly the permits A left) and free after A's release.
 CORRESPONDENCE: the atomic-step schedule is read off the scheduler log (the COMMIT/ROLLBACK that ends
 each transaction on the key's shard, lock-free SELECTs, work sleeps) and the same programs + schedule
 are run through model/Recipes.v (check_lock / check_rlock / check_sem): per-step outcomes, final
@@ -32,6 +35,10 @@ TRUSTED = [
     'atomic layer: one Cache operation / one `with cache.transact(retry=True)` block on the recipe key is one atomic step of model/Recipes.v (this is what C05/C06 state; assumed here, exercised by the schedule-driven correspondence)',
     'translator templates of tools/emit_recipes.py for Lock/RLock/BoundedSemaphore/barrier (AST equality outside the holes)',
     'the mapping from scheduler-log events to atomic steps (COMMIT/ROLLBACK of the key shard, lock-free SELECT, work sleep) in harness/props/c15.py',
+    'separately started interpreters: the child script FRESH_CHILD of harness/props/c15.py (run by /venv/bin/python -c with PYTHONPATH = the tree under test; it '
+    'asserts that diskcache was imported from there), its replacement of diskcache.recipes.time by an object whose sleep() raises (so that an attempt which '
+    'found the resource taken ends instead of waiting), the line protocol over the pipes (A leaves only after B has reported), and the operating system '
+    'honouring PYTHONHASHSEED',
 ]
 ASSUMPTIONS = [
     'the lock key is touched by nobody else, has no ttl (the recipes and barrier are used with their DEFAULT expire, which the hold sequences check '
@@ -42,6 +49,11 @@ ASSUMPTIONS = [
     'no liveness under contention is claimed (needs a fair scheduler): only "a free resource is taken by the next attempt" and "a release frees it"',
     'processes: forked holders (object built before the fork) and forked contenders that unpickle the recipe object (Cache and FanoutCache with 1-13 shards, '
     'both directions) on every run, monitor only; a free-running soak in the thorough tier; the deterministic scheduler drives threads',
+    'separately started interpreters (neither forked from one another nor sharing pickled objects; each opens the directory and builds its recipe from the key): '
+    'two processes per configuration with explicit PYTHONHASHSEED values (different, and equal as a control; the everyday case "unset = random per process" is an '
+    'instance of "different"), Cache and FanoutCache with 2, 3, 8 and one of 4/5/13 shards, text keys of several shapes plus a few int/float/bytes/tuple keys, '
+    'Lock, RLock (depth 1-2), BoundedSemaphore(1-3) fully and partly taken, barrier with each factory; sequential (B probes while A stays inside, no interleaving '
+    'of the two), monitor only; a child that does not answer within 120 s is counted as inconclusive, never as a violation',
     'hold sequences are sequential (one operation at a time, an acquire that would wait is cut at its first sleep): they add the dimensions time and '
     'origin of the handle (same object / unpickled recipe object / recipe built on an unpickled cache handle), not interleavings',
 ]
@@ -1248,6 +1260,485 @@ def pickled_process_holders(ctx, res, ncases):
     res.extra['pickled_process_checks'] = checked
 
 
+# ---------------------------------------------------------------------------
+# contenders that are SEPARATELY STARTED interpreters (nothing inherited by fork, nothing sent by pickle: each process opens
+# the directory and builds its own recipe object from the key, with its own PYTHONHASHSEED)
+
+
+FRESH_CHILD = r"""
+import ast, json, os, sys, threading
+import time as _real_time
+sys.path.insert(0, sys.argv[1])
+import diskcache
+import diskcache.recipes as _rec
+from diskcache import core as _core
+assert os.path.realpath(os.path.dirname(os.path.dirname(_core.__file__))) == os.path.realpath(sys.argv[1]), _core.__file__
+job = json.loads(sys.argv[2])
+WAIT = job['wait']
+
+
+class WouldBlock(Exception):
+    pass
+
+
+class _Time:
+    # the recipes sleep between two attempts: an attempt that found the resource taken ends here instead of waiting
+    def sleep(self, d):
+        raise WouldBlock()
+
+    def __getattr__(self, name):
+        return getattr(_real_time, name)
+
+
+_rec.time = _Time()
+
+
+def say(obj):
+    sys.stdout.write(json.dumps(obj) + '\n')
+    sys.stdout.flush()
+
+
+if job['variant'] == 'fanout':
+    cache = diskcache.FanoutCache(job['directory'], shards=job['shards'], eviction_policy='none')
+else:
+    cache = diskcache.Cache(job['directory'], eviction_policy='none')
+
+
+def key_of(item):
+    return ast.literal_eval(item['key'])
+
+
+def factory(item):
+    kind, value = item['kind'], item.get('value', 1)
+    if kind == 'lock':
+        return diskcache.Lock
+    if kind == 'rlock':
+        return diskcache.RLock
+    if value == 1:
+        return diskcache.BoundedSemaphore
+    return lambda c, k, expire=None, tag=None: diskcache.BoundedSemaphore(c, k, value=value, expire=expire, tag=tag)
+
+
+def build(item, body):
+    # -> (recipe object, None) or (None, barrier-wrapped function)
+    if item.get('barrier'):
+        if item.get('named', True):
+            return None, diskcache.barrier(cache, factory(item), name=key_of(item))(body)
+        body.__name__ = body.__qualname__ = item['func']
+        return None, diskcache.barrier(cache, factory(item))(body)
+    if item['kind'] == 'sem' and item.get('value', 1) != 1:
+        return diskcache.BoundedSemaphore(cache, key_of(item), value=item['value']), None
+    return factory(item)(cache, key_of(item)), None
+
+
+def hold():
+    leave = threading.Event()
+    holders = []      # (item index, thread, state)
+
+    def holder(lk, wrapped, n, st):
+        got = 0
+        try:
+            try:
+                if wrapped is not None:
+                    wrapped(st)
+                else:
+                    for _ in range(n):
+                        lk.acquire()
+                        got += 1
+                    st['status'] = 'held'
+                    st['ready'].set()
+                    leave.wait()          # until the parent says so (or goes away: end of file on stdin)
+            except WouldBlock:
+                st['status'] = 'blocked'
+                return
+            finally:
+                if lk is not None:
+                    for _ in range(got):
+                        lk.release()
+            st['after'] = 'released'
+        except AssertionError as e:
+            st['after' if st['status'] == 'held' else 'status'] = 'refused: %s' % (e,)
+        except BaseException as e:
+            st['after' if st['status'] == 'held' else 'status'] = 'error: %r' % (e,)
+        finally:
+            st['ready'].set()
+
+    for idx, item in enumerate(job['items']):
+        if idx in job.get('skip', []):
+            continue
+
+        def body(st):
+            st['status'] = 'held'
+            st['ready'].set()
+            leave.wait()
+            return 'ran'
+        lk, wrapped = build(item, body)
+        groups = [1] * item['hold'] if wrapped is not None else [item['hold']]
+        for n in groups:
+            st = {'status': 'waiting', 'after': None, 'ready': threading.Event()}
+            t = threading.Thread(target=holder, args=(lk, wrapped, n, st), daemon=True)
+            t.start()
+            st['ready'].wait(WAIT)          # one at a time: the holders of one process do not contend with each other
+            holders.append((idx, t, st))
+    say({'held': [[idx, st['status']] for idx, t, st in holders]})
+    sys.stdin.readline()
+    leave.set()
+    for idx, t, st in holders:
+        t.join(WAIT)
+    say({'released': [[idx, st['after']] for idx, t, st in holders if st['status'] == 'held']})
+
+
+def probe_item(item, tries, out):
+    def body():
+        return 'ran'
+    lk, wrapped = build(item, body)
+    if lk is not None and item['kind'] == 'lock':
+        out['locked'] = bool(lk.locked())
+    got = 0
+    try:
+        try:
+            for _ in range(tries):
+                if wrapped is not None:
+                    wrapped()
+                else:
+                    lk.acquire()
+                got += 1
+                out['got'] = got
+            out['end'] = 'all'
+        except WouldBlock:
+            out['end'] = 'blocked'
+        finally:
+            if lk is not None:
+                for _ in range(got):
+                    lk.release()
+    except AssertionError as e:
+        out['end'] = 'refused: %s' % (e,)
+    except BaseException as e:
+        out['end'] = 'error: %r' % (e,)
+
+
+def probe():
+    for phase in (0, 1):
+        skip = json.loads(sys.stdin.readline() or '{}').get('skip', [])
+        report = []
+        for idx, item in enumerate(job['items']):
+            if idx in skip:
+                continue
+            out = {'got': 0, 'end': 'waiting'}
+            t = threading.Thread(target=probe_item, args=(item, item['tries'][phase], out), daemon=True)
+            t.start()
+            t.join(WAIT)
+            report.append([idx, dict(out)])
+        say({'phase': phase, 'report': report})
+
+
+try:
+    hold() if job['role'] == 'hold' else probe()
+    sys.stdout.flush()
+    try:
+        cache.close()
+    except BaseException:
+        pass
+finally:
+    os._exit(0)
+"""
+
+FRESH_WAIT = 120.0      # wall-clock bound on anything a child or the parent waits for; reaching it is INCONCLUSIVE, never a violation
+FRESH_SHARDS = [2, 3, 8]
+FRESH_WORDS = ['resource', 'report', 'jobs', 'lock', 'sem/a', 'rlock:b', 'K', 'L', 'schlüssel', 'queue worker', 'user:42:session', 'x' * 70]
+FRESH_OTHER_KEYS = [7, -3, 2.5, b'bin-key', ('k', 1), ('job', 'lock', 3)]
+
+
+class _ChildLines:
+    """Lines of a child's stdout with a wall-clock deadline.  line() -> text, '' at end of file, None when the deadline passed."""
+
+    def __init__(self, f):
+        self.fd = f.fileno()
+        self.buf = b''
+
+    def line(self, timeout):
+        import select
+        import time as real_time
+        end = real_time.monotonic() + timeout
+        while b'\n' not in self.buf:
+            left = end - real_time.monotonic()
+            if left <= 0:
+                return None
+            r, _, _ = select.select([self.fd], [], [], left)
+            if not r:
+                return None
+            chunk = os.read(self.fd, 65536)
+            if not chunk:
+                return ''
+            self.buf += chunk
+        line, self.buf = self.buf.split(b'\n', 1)
+        return line.decode('utf-8')
+
+
+def fresh_bound(item):
+    return item.get('value', 1) if item['kind'] == 'sem' else 1
+
+
+def fresh_free(item):
+    """what the holder leaves to others (an RLock held at any depth leaves nothing)"""
+    if item['kind'] == 'rlock':
+        return 0 if item['hold'] else 1
+    return fresh_bound(item) - item['hold']
+
+
+def fresh_tries(item):
+    """[attempts of the second process while the first holds, attempts after the release]."""
+    free = fresh_free(item)
+    if item.get('barrier'):
+        return [1, 1]
+    if item['kind'] == 'sem':
+        return [free + 1, item['value']]
+    return [1, 2 if item['kind'] == 'rlock' else 1]
+
+
+def fresh_what(case, item):
+    name = {'lock': 'Lock', 'rlock': 'RLock', 'sem': 'BoundedSemaphore'}[item['kind']]
+    where = 'FanoutCache[%d shards]' % case['shards'] if case['variant'] == 'fanout' else 'Cache'
+    extra = ', value=%d' % item['value'] if item['kind'] == 'sem' else ''
+    if item.get('barrier'):
+        return 'barrier(%s, %s%s%s)' % (where, name, extra, ', name=%s' % item['key'] if item.get('named', True) else ' on function %s' % item['func'])
+    return '%s(%s, %s%s)' % (name, where, item['key'], extra)
+
+
+def start_fresh(role, seed, case, cdir, errpath, skip=()):
+    import json
+    import subprocess
+    env = dict(os.environ)
+    env['PYTHONHASHSEED'] = str(seed)
+    env['PYTHONPATH'] = fw.REPO
+    env['PYTHONDONTWRITEBYTECODE'] = '1'
+    job = {'role': role, 'variant': case['variant'], 'shards': case.get('shards', 1), 'directory': cdir, 'wait': FRESH_WAIT, 'skip': sorted(skip),
+           'items': [dict(it, tries=fresh_tries(it)) for it in case['items']]}
+    err = open(errpath, 'wb')
+    try:
+        return subprocess.Popen([fw.PY, '-c', FRESH_CHILD, fw.REPO, json.dumps(job)], stdin=subprocess.PIPE, stdout=subprocess.PIPE,
+                                stderr=err, env=env, bufsize=0)
+    finally:
+        err.close()
+
+
+class FreshInconclusive(Exception):
+    """a child did not answer within FRESH_WAIT seconds (nothing is concluded from that)"""
+
+
+def run_fresh_process_case(case, d):
+    """-> (problems [(sig, text, item index)], info).  Process A (fresh interpreter, PYTHONHASHSEED seeds[0]) opens the directory, takes
+    item['hold'] permits of every item (parks that many threads inside the barrier-wrapped function) and keeps them until told.
+    Process B (fresh interpreter, seeds[1]) opens the same directory and, per item, asks Lock.locked() and makes attempts that end at
+    the recipe's first sleep instead of waiting: it must get exactly the permits A left (none for Lock / RLock / a fully taken
+    semaphore).  A stays inside until B's report has arrived, so whatever B got it got while A was holding: no timing is involved.
+    Then A releases and B must find everything free.  All expectations follow from bound - held, nothing else."""
+    import json
+    problems, info = [], {'inconclusive': 0, 'blocked': 0, 'acquired': 0, 'items': 0}
+    cdir = os.path.join(d, 'cache')
+    items = case['items']
+    seeds = case['seeds']
+    procs = []
+
+    def tail(name):
+        try:
+            with open(os.path.join(d, name), 'rb') as f:
+                return f.read()[-600:].decode('utf-8', 'replace')
+        except OSError:
+            return ''
+
+    def answer(p, lines, name):
+        line = lines.line(FRESH_WAIT + 30)
+        if line is None:
+            raise FreshInconclusive(name)
+        if line == '':
+            p.wait()
+            raise RuntimeError('the interpreter of process %s ended (exit code %r): %s' % (name, p.returncode, tail(name + '.err')))
+        return json.loads(line)
+
+    def who(j):
+        return 'process %s (fresh interpreter, PYTHONHASHSEED=%s)' % ('AB'[j], seeds[j])
+    try:
+        try:
+            pa = start_fresh('hold', seeds[0], case, cdir, os.path.join(d, 'A.err'))
+            procs.append(pa)
+            la = _ChildLines(pa.stdout)
+            held = answer(pa, la, 'A')['held']
+            bad_items = set()
+            for idx, status in held:
+                if status == 'held':
+                    continue
+                bad_items.add(idx)
+                what = fresh_what(case, items[idx])
+                if status == 'blocked':
+                    problems.append(('fresh-process:free-acquire-blocked', '%s found %s taken in a new directory (taking %d of %d permits)' % (
+                        who(0), what, items[idx]['hold'], fresh_bound(items[idx])), idx))
+                elif status == 'waiting':
+                    info['inconclusive'] += 1
+                else:
+                    problems.append(('fresh-process:error', '%s failed on %s: %s' % (who(0), what, status), idx))
+            pb = start_fresh('probe', seeds[1], case, cdir, os.path.join(d, 'B.err'))
+            procs.append(pb)
+            lb = _ChildLines(pb.stdout)
+            pb.stdin.write((json.dumps({'skip': sorted(bad_items)}) + '\n').encode())
+            rep0 = answer(pb, lb, 'B')['report']
+            # A is still inside: it leaves only now
+            for idx, out in rep0:
+                it = items[idx]
+                what = fresh_what(case, it)
+                free = fresh_free(it)
+                expect = min(free, 1) if it.get('barrier') else free
+                info['items'] += 1
+                info['acquired'] += out['got']
+                if out['end'] == 'waiting':
+                    info['inconclusive'] += 1
+                    bad_items.add(idx)      # its thread is still spinning: nothing more is concluded about this item
+                    if out['got'] <= expect:
+                        continue
+                if out['got'] > expect:
+                    problems.append(('fresh-process:exclusion', '%s %s %s while %s was holding it (%s): %d simultaneous holders, bound %d' % (
+                        who(1), 'entered the function under' if it.get('barrier') else 'acquired', what, who(0),
+                        'depth %d' % it['hold'] if it['kind'] == 'rlock' else '%d of %d permit(s)' % (it['hold'], fresh_bound(it)),
+                        (1 if it['kind'] == 'rlock' else it['hold']) + out['got'], fresh_bound(it)), idx))
+                elif out['end'] == 'blocked':
+                    info['blocked'] += 1
+                    if out['got'] < expect:
+                        problems.append(('fresh-process:free-acquire-blocked', '%s got %d permit(s) of %s although %s holds only %d of %d' % (
+                            who(1), out['got'], what, who(0), it['hold'], fresh_bound(it)), idx))
+                elif out['end'] != 'all':
+                    problems.append(('fresh-process:release-refused' if out['end'].startswith('refused') else 'fresh-process:error',
+                                     '%s failed on %s while %s was holding it: %s' % (who(1), what, who(0), out['end']), idx))
+                if 'locked' in out and out['locked'] is not True and it['hold'] >= 1:
+                    problems.append(('fresh-process:locked-false-while-held', '%s: locked() of %s is %r while %s is holding it' % (who(1), what, out['locked'], who(0)), idx))
+            pa.stdin.write(b'go\n')
+            for idx, after in answer(pa, la, 'A')['released']:
+                if after == 'released':
+                    continue
+                what = fresh_what(case, items[idx])
+                if after is None:
+                    info['inconclusive'] += 1
+                    bad_items.add(idx)
+                elif after.startswith('refused'):
+                    bad_items.add(idx)
+                    problems.append(('fresh-process:release-refused', 'the release of %s by its holder %s was refused (%s) after %s had probed it' % (
+                        what, who(0), after, who(1)), idx))
+                else:
+                    bad_items.add(idx)
+                    problems.append(('fresh-process:error', '%s failed releasing %s: %s' % (who(0), what, after), idx))
+            pb.stdin.write((json.dumps({'skip': sorted(bad_items)}) + '\n').encode())
+            for idx, out in answer(pb, lb, 'B')['report']:
+                it = items[idx]
+                what = fresh_what(case, it)
+                tries = fresh_tries(it)[1]
+                if out['end'] == 'waiting':
+                    info['inconclusive'] += 1
+                elif out['end'] == 'blocked' or (out['end'] == 'all' and out['got'] < tries):
+                    problems.append(('fresh-process:no-progress', '%s got only %d of %d acquisitions of %s after %s had released everything' % (
+                        who(1), out['got'], tries, what, who(0)), idx))
+                elif out['end'] != 'all':
+                    problems.append(('fresh-process:release-refused' if out['end'].startswith('refused') else 'fresh-process:error',
+                                     '%s failed on %s after %s had released it: %s' % (who(1), what, who(0), out['end']), idx))
+                if out.get('locked') is True:
+                    problems.append(('fresh-process:locked-true-after-release', '%s: locked() of %s is True after %s released it' % (who(1), what, who(0)), idx))
+            for p in procs:
+                try:
+                    p.wait(30)
+                except Exception:      # noqa: BLE001
+                    pass
+        except FreshInconclusive:
+            info['inconclusive'] += 1
+        except (RuntimeError, ValueError, OSError) as e:
+            problems.append(('fresh-process:error', 'separately started interpreters on %s[%d]: %r %s %s' % (
+                case['variant'], case.get('shards', 1), e, tail('A.err'), tail('B.err')), None))
+    finally:
+        for p in procs:
+            if p.poll() is None:
+                p.kill()
+            for f in (p.stdin, p.stdout):
+                try:
+                    f.close()
+                except OSError:
+                    pass
+            try:
+                p.wait(10)
+            except Exception:      # noqa: BLE001
+                pass
+    return problems, info
+
+
+def gen_fresh_items(rng):
+    """One batch for a pair of processes: every recipe, semaphores fully and partly taken, barrier with each factory (key given or
+    derived from the function), on distinct keys (mostly text, the usual case and what barrier derives)."""
+    shapes = [{'kind': 'lock', 'hold': 1} for _ in range(3)]
+    shapes += [{'kind': 'rlock', 'hold': 1}, {'kind': 'rlock', 'hold': 2}]
+    shapes += [{'kind': 'sem', 'value': v, 'hold': v} for v in (1, 2, 3)]
+    shapes += [{'kind': 'sem', 'value': 2, 'hold': 1}, {'kind': 'sem', 'value': 3, 'hold': rng.choice([1, 2])}]
+    shapes += [{'kind': 'lock', 'hold': 1, 'barrier': True, 'named': True}, {'kind': 'lock', 'hold': 1, 'barrier': True, 'named': False},
+               {'kind': 'rlock', 'hold': 1, 'barrier': True, 'named': rng.random() < 0.5}]
+    v = rng.choice([1, 2, 3])
+    shapes += [{'kind': 'sem', 'value': v, 'hold': v, 'barrier': True, 'named': rng.random() < 0.5},
+               {'kind': 'sem', 'value': 2, 'hold': 1, 'barrier': True, 'named': True}]
+    rng.shuffle(shapes)
+    used = set()
+    others = rng.sample(range(len(shapes)), 2)
+    for i, it in enumerate(shapes):
+        it.setdefault('value', 1)
+        while True:
+            if i in others and not (it.get('barrier') and not it.get('named', True)):
+                k = rng.choice(FRESH_OTHER_KEYS)
+            else:
+                w = rng.choice(FRESH_WORDS)
+                k = w if rng.random() < 0.2 else '%s-%d' % (w, rng.randrange(1000))
+            if repr(k) not in used:
+                break
+        used.add(repr(k))
+        it['key'] = repr(k)
+        if it.get('barrier') and not it.get('named', True):
+            it['func'] = 'work_%d' % i
+            it['key'] = repr('__main__.' + it['func'])      # (for the report only: barrier derives it from the function)
+    return shapes
+
+
+def fresh_process_holders(ctx, res):
+    rng = ctx.rng
+
+    def seedpair(equal=False):
+        a = rng.choice([0, rng.randrange(1, 2 ** 32)])
+        b = a
+        while not equal and b == a:
+            b = rng.randrange(1, 2 ** 32)
+        return [a, b]
+    configs = [('fanout', n, seedpair()) for n in FRESH_SHARDS]
+    configs.append(('fanout', rng.choice([4, 5, 13]), seedpair()))
+    configs.append(('cache', 1, seedpair()))
+    # controls: the same hash seed on both sides, one directory / several
+    configs.append(('cache', 1, seedpair(equal=True)))
+    configs.append(('fanout', rng.choice(FRESH_SHARDS), seedpair(equal=True)))
+    seen = {}
+    tot = {'inconclusive': 0, 'blocked': 0, 'acquired': 0, 'items': 0}
+    import time as real_time
+    t0 = real_time.monotonic()
+    for variant, shards, seeds in configs:
+        case = {'check': 'fresh-process', 'variant': variant, 'shards': shards, 'seeds': seeds, 'items': gen_fresh_items(rng)}
+        d = ctx.scratch('c15x')
+        try:
+            problems, info = run_fresh_process_case(case, d)
+        finally:
+            shutil.rmtree(d, ignore_errors=True)
+        for k in tot:
+            tot[k] += info[k]
+        for it in case['items']:
+            res.count(['fresh-process', variant, shards, seeds, it], nontrivial=True)
+        for sig, text, idx in problems:
+            seen[sig] = seen.get(sig, 0) + 1
+            if seen[sig] <= 4:
+                one = dict(case, items=[case['items'][idx]]) if idx is not None else case
+                res.violations.append(fw.Violation(sig, text, one))
+    res.extra['fresh_process_configurations'] = [[v, n, s] for v, n, s in configs]
+    res.extra['fresh_process_totals'] = tot
+    res.extra['fresh_process_seconds'] = round(real_time.monotonic() - t0, 1)
+
+
 def base_hist():
     return {'contenders': {}, 'variant': {}, 'kind': {}, 'atomic_steps': {}, 'contention': 0, 'max_holders': 0}
 
@@ -1283,7 +1774,11 @@ def run(ctx):
                 'clock advances by 0.5 s ... 400 days before the next contender arrives, on Cache and FanoutCache with 1,2,3,4,5,8,13 shards, lock keys '
                 'of several types, each contender using the original object, an unpickled copy of the recipe object, or a recipe built on an unpickled '
                 'cache handle.  Processes: holders forked after the object was built; a recipe object pickled here and unpickled in a forked process, '
-                'holder and contender on either side.  '
+                'holder and contender on either side.  Separately started interpreters (fresh /venv/bin/python processes with explicit, different '
+                'PYTHONHASHSEED values; equal seeds and a plain Cache as controls) on Cache and FanoutCache with 2, 3, 8 and one of 4/5/13 shards: process A builds '
+                'Lock / RLock (depth 1-2) / BoundedSemaphore(1-3, fully or partly taken) / barrier-wrapped functions (each factory, key given or derived) on 15 distinct '
+                'keys per configuration (random text keys, some int/float/bytes/tuple) and stays inside; process B must see Lock.locked() true and get exactly '
+                'bound - held permits with attempts that end at the first sleep; after A leaves B must get all of them.  '
                 'non-trivial = at least 4 atomic steps / at least one refused release; distinct = distinct (recipe, value, variant, programs, schedule).')
     hist = base_hist()
     rng = ctx.rng
@@ -1307,6 +1802,7 @@ def run(ctx):
     hold_sequences(ctx, res, 180 if ctx.quick else 1800)
     forked_holders(ctx, res)
     pickled_process_holders(ctx, res, 42 if ctx.quick else 210)
+    fresh_process_holders(ctx, res)
     if not ctx.quick:
         process_soak(ctx, res)
     return res
@@ -1324,6 +1820,7 @@ def search(ctx, broken):
     hold_sequences(ctx, res, 400)
     forked_holders(ctx, res)
     pickled_process_holders(ctx, res, 84)
+    fresh_process_holders(ctx, res)
     return res
 
 
@@ -1350,6 +1847,14 @@ def replay(payload):
         try:
             problems = run_pickled_process_case(case, d)
             print('pickled recipe object in another process:', problems)
+            return not problems
+        finally:
+            shutil.rmtree(d, ignore_errors=True)
+    if case.get('check') == 'fresh-process':
+        d = tempfile.mkdtemp(prefix='c15r-')
+        try:
+            problems, info = run_fresh_process_case(case, d)
+            print('separately started interpreters:', problems, info)
             return not problems
         finally:
             shutil.rmtree(d, ignore_errors=True)
